@@ -7,6 +7,7 @@ CONSTANTS
   MaxLen = 0
   Waits = {}
   Groups <- NoGroups
+  SampledGroups = {}
   Tolerant = TRUE
 INVARIANTS BarrierOrder CountersExact EndAfterMemory CompletionOnce Report
 CONSTRAINT Mark
